@@ -11,6 +11,7 @@ package main
 
 import (
 	"bytes"
+	"crypto/sha256"
 	"context"
 	"encoding/hex"
 	"encoding/json"
@@ -387,7 +388,11 @@ func (e *c05Env) routeLib(tree *c05Node, srcDir string, src []*c05Ent, cliBytes 
 	co := *c
 	co.Route = "lib-overwrite"
 	e.r.Count("lib-overwrite|"+treeKey(tree), len(src) > 1)
-	if err := c05Scramble(dst); err != nil {
+	outside := e.scratch("outside")
+	os.Mkdir(outside, 0700)
+	defer c05RemoveAll(outside)
+	links, err := c05Scramble(dst, outside, e.xattrs && e.root)
+	if err != nil {
 		e.r.Note("scramble: %v", err)
 		return
 	}
@@ -402,22 +407,40 @@ func (e *c05Env) routeLib(tree *c05Node, srcDir string, src []*c05Ent, cliBytes 
 	if d := e.snapshotOrFail(&co, dst); d != nil {
 		e.report(&co, c05Compare(src, d, c05Opts{t0: t0, t1: t1, scrambled: true}))
 	}
+	// names outside the target that were hard links to files of the earlier generation keep the old content
+	for name, sum := range links {
+		b, err := os.ReadFile(filepath.Join(outside, name))
+		if err != nil || sha256.Sum256(b) != sum {
+			cc := co
+			cc.Detail = fmt.Sprintf("outside name %s was a hard link to %q of the earlier extraction", name, links2rel[name])
+			e.r.Fail("predicate", "untar/written-through-hard-link", "unpacking over an earlier extraction changed a file outside the target directory through a hard link: "+cc.Detail, &cc)
+			break
+		}
+	}
 }
 
-// c05Scramble changes content, mode, owner, times and link targets of what is there,
-// without adding or removing names (desync does not promise to remove leftovers).
-func c05Scramble(root string) error {
+// where each outside hard link of the last scramble pointed (for messages only)
+var links2rel = map[string]string{}
+
+// c05Scramble turns an extraction into "an earlier generation": other content, mode, owner, times and link
+// targets, other values for the xattrs that are there and EXTRA xattrs on everything but directories
+// (directories are kept as they are by an unpack; desync does not promise to clean them), and hard links from
+// names outside the tree to regular files inside it.  No name is added or removed inside the tree.
+// Returns the outside names with the hash of their (old) content.
+func c05Scramble(root, outside string, xattrs bool) (map[string][32]byte, error) {
 	ents, err := c05Snapshot(root, false)
 	if err != nil {
-		return err
+		return nil, err
 	}
+	links := map[string][32]byte{}
+	links2rel = map[string]string{}
 	for i, e := range ents {
 		p := filepath.Join(root, e.Rel)
 		switch e.kind() {
 		case "file":
 			f, err := os.OpenFile(p, os.O_WRONLY|os.O_APPEND, 0)
 			if err != nil {
-				return err
+				return nil, err
 			}
 			f.Write(bytes.Repeat([]byte("leftover"), 1+i%700))
 			f.Close()
@@ -425,6 +448,14 @@ func c05Scramble(root string) error {
 				os.WriteFile(p, []byte("replaced by something longer than before ................................"), 0600)
 			}
 			syscall.Chmod(p, 0)
+			if i%2 == 0 && len(links) < 40 {
+				name := fmt.Sprintf("l%d", i)
+				if err := os.Link(p, filepath.Join(outside, name)); err == nil {
+					b, _ := os.ReadFile(p)
+					links[name] = sha256.Sum256(b)
+					links2rel[name] = e.Rel
+				}
+			}
 		case "link":
 			os.Remove(p)
 			os.Symlink("somewhere/else", p)
@@ -434,10 +465,16 @@ func c05Scramble(root string) error {
 		for k := range e.Xattrs {
 			lsetxattr(p, k, []byte("stale"))
 		}
+		if xattrs && e.kind() != "dir" {
+			lsetxattr(p, "trusted.c05-earlier-generation", []byte("left over"))
+			if e.kind() == "file" {
+				lsetxattr(p, "user.c05-checked-by", []byte("alice"))
+			}
+		}
 		os.Lchown(p, 4242, 4243)
 		lutimens(p, 1234567, 89)
 	}
-	return nil
+	return links, nil
 }
 
 // routeLibIdx: Tar -> Chunker -> ChunkStream into a local store -> index written and re-read -> UnTarIndex.
